@@ -154,7 +154,8 @@ def run_scenario(task):
     res = dict(scenario=sname, paths=0, transitions=0, checks=0, solver_time=0.0, obligations=0, discharged=0,
                discharged_batch=0, discharged_defs=0, candidates=0, violations=[], known=[], inconclusive=[],
                validated=0, tv_skipped=0, tv_mismatch=[], samples=[], functions=[], complete=False, error=None,
-               twin=False, twin_ok=None, cache_hits=0, sub_paths=0, unknown_feas=0, concretized=0, aborted=0, labels={}, bounds={})
+               twin=False, twin_ok=None, cache_hits=0, sub_paths=0, unknown_feas=0, concretized=0, aborted=0, labels={}, bounds={},
+               xcheck=dict(checked=0, agree=0, unknown=0, disagree=0))
     try:
         import z3
         from . import core, install, stubs, npx
@@ -175,6 +176,8 @@ def run_scenario(task):
         state = {'stop': False, 'nviol': 0}
         proved = set()
         kf_confirmed = set()
+        xcap = int(os.environ.get('SX_XCHECK', '4' if tier == 'quick' else '25'))
+        xevery = max(1, int(os.environ.get('SX_XCHECK_EVERY', '37')))
         tv_every = max(1, int(scn.setup.get('tv_every', 7)))
         tv_cap = int(scn.setup.get('tv_cap', 6))
 
@@ -286,6 +289,20 @@ def run_scenario(task):
                     res['discharged_batch'] += 1
                     for _, _, key in items:
                         proved.add(key)
+                    # second solver: a sample of the discharged obligation queries is exported as SMT-LIB2 and decided
+                    # again by cvc5; "sat" there against z3's "unsat" is a harness error
+                    nb = res['discharged_batch']
+                    if res['xcheck']['checked'] < xcap and (nb == 1 or nb % xevery == 0):
+                        v = cvc5_verdict(ctx.last)
+                        xc = res['xcheck']
+                        xc['checked'] += 1
+                        if v == 'unsat':
+                            xc['agree'] += 1
+                        elif v == 'sat':
+                            xc['disagree'] += 1
+                            res['error'] = 'solver disagreement: z3 unsat, cvc5 sat on obligation %s' % items[0][0].label
+                        else:
+                            xc['unknown'] += 1
                     return
                 for o, c, key in items:
                     r = ctx.check(z3.Not(c), npc=npc, nas=nas)
@@ -546,6 +563,32 @@ def run_scenario(task):
     return res
 
 
+def cvc5_verdict(z3solver, tlimit_ms=4000):
+    """decide the assertions of a z3 solver object with cvc5 (SMT-LIB2 export); 'sat' / 'unsat' / 'unknown'"""
+    try:
+        import cvc5
+        txt = z3solver.to_smt2()
+        slv = cvc5.Solver()
+        slv.setOption('tlimit-per', str(tlimit_ms))
+        slv.setLogic('ALL')
+        ps = cvc5.InputParser(slv)
+        ps.setStringInput(cvc5.InputLanguage.SMT_LIB_2_6, txt, 'obligation')
+        sm = ps.getSymbolManager()
+        verdict = 'unknown'
+        while True:
+            c = ps.nextCommand()
+            if c.isNull():
+                break
+            out = str(c.invoke(slv, sm)).strip()
+            if '(error' in out:
+                return 'unknown'
+            if out in ('sat', 'unsat', 'unknown'):
+                verdict = out
+        return verdict
+    except Exception:
+        return 'unknown'
+
+
 def _margins(pc, eps=None):
     """for translation validation: strengthen each arithmetic branch literal by a margin; None if the path is a boundary"""
     import z3
@@ -648,7 +691,8 @@ def _blank_result(task, error):
                 discharged_batch=0, discharged_defs=0, candidates=0, violations=[], known=[], inconclusive=[],
                 validated=0, tv_skipped=0, tv_mismatch=[], samples=[], functions=[], complete=False,
                 error=error, twin=False, twin_ok=None, cache_hits=0, sub_paths=0,
-                unknown_feas=0, concretized=0, aborted=0, labels={}, bounds={}, wall=0.0)
+                unknown_feas=0, concretized=0, aborted=0, labels={}, bounds={}, wall=0.0,
+                xcheck=dict(checked=0, agree=0, unknown=0, disagree=0))
 
 
 def _worker(inq, outq):
@@ -791,6 +835,8 @@ def _merge_shards(results):
         m['wall'] = max(m['wall'], r['wall'])
         for lk, lv in r['labels'].items():
             m['labels'][lk] = m['labels'].get(lk, 0) + lv
+        for xk, xv in r.get('xcheck', {}).items():
+            m['xcheck'][xk] = m['xcheck'].get(xk, 0) + xv
     return [by[k] for k in order]
 
 
@@ -889,6 +935,9 @@ def finish(pid, a, seed, prop, results, wall):
         concretisations=sum(r['concretized'] for r in results),
         infeasible_paths_cut=sum(r['aborted'] for r in results),
         translation_validation_skipped=sum(r['tv_skipped'] for r in real),
+        second_solver=dict(solver='cvc5 %s' % _cvc5v(), what='a sample of the obligation queries z3 answered unsat, re-decided '
+                           'from their SMT-LIB2 export', **{k: sum(r.get('xcheck', {}).get(k, 0) for r in real)
+                                                           for k in ('checked', 'agree', 'unknown', 'disagree')}),
         functions_encoded=sorted({f for r in results for f in r['functions']}),
         obligation_labels=_merge_labels(real),
         scenarios=[dict(name=r['scenario'], paths=r['paths'], nested_paths=r.get('sub_paths', 0), obligations=r['obligations'], wall_s=r['wall'],
@@ -929,6 +978,14 @@ def _merge_labels(rs):
         for k, v in r['labels'].items():
             out[k] = out.get(k, 0) + v
     return out
+
+
+def _cvc5v():
+    try:
+        import cvc5
+        return cvc5.__version__
+    except Exception:
+        return '?'
 
 
 def _z3v():
